@@ -85,8 +85,46 @@ Example C12_ex_disclose :
 Proof. exact (conj ex_b_wf (conj ex_lookup_ok (conj ex_accepted (conj ex_holds_11 ex_publish)))). Qed.
 
 (** ------------------------------------------------------------------------
-    DEALER HALF (INVOCATION / disclose_caller): proved in
-    Router/DealerProofs.v by the dealer engineer — to be merged here by the
-    lead (add [Router.DealerProofs] to the Require above and the statements
-    below this line).
+    DEALER HALF (INVOCATION / disclose_caller), proved in Router/DealerCall.v
     ------------------------------------------------------------------------ *)
+From Nexus Require Import Router.DealerProofs Router.DealerCall Router.DealerExamples.
+
+(** the caller's identity is in the INVOCATION details iff the registration
+    asked for it (disclose_caller, checked at REGISTER) or the caller asked
+    (disclose_me), the realm allows disclosure and the callee announced
+    caller_identification *)
+Theorem C12_invocation_disclose_iff : forall cfg lookup now d caller req opts proc args kw oracle d' callee' o,
+    call cfg lookup now d caller req opts proc args kw oracle = CallInvoked d' callee' o ->
+    cget (d_bycall d) (s_id caller, req) = None ->
+    exists r callee_id callee invid det,
+      match_procedure d proc oracle = Some r /\ lookup callee_id = Some callee /\
+      o = [(callee_id, RInvocation invid (reg_id r) det args kw)] /\
+      let allowed := reg_disclose r ||
+                     (opt_bool opts "disclose_me" && c_disclose cfg && sess_feature callee "callee" f_caller_ident) in
+      dget det "caller" = (if allowed then Some (vid (s_id caller)) else None) /\
+      dget det "caller_authid" = (if allowed then dget (s_details caller) "authid" else None) /\
+      dget det "caller_authrole" = (if allowed then dget (s_details caller) "authrole" else None).
+Proof. exact invocation_disclose_iff_proof. Qed.
+Print Assumptions C12_invocation_disclose_iff.
+
+(** a disallowed disclose_me on a CALL is refused with
+    option_disallowed.disclose_me, nothing is recorded, no INVOCATION *)
+Theorem C12_call_disclose_refused : forall cfg lookup now d caller req opts proc args kw oracle r callee_id next callee,
+    match_procedure d proc oracle = Some r -> reg_callees r <> [] ->
+    call_abort_cond caller opts = false -> cget (d_bycall d) (s_id caller, req) = None ->
+    select_callee r oracle = Some (callee_id, next) -> lookup callee_id = Some callee ->
+    call_feature_refused callee opts = false ->
+    opt_bool opts "disclose_me" = true -> reg_disclose r = false -> c_disclose cfg = false ->
+    call cfg lookup now d caller req opts proc args kw oracle =
+    CallRefused (call_d0 d r next) [(s_id caller, RError c_CALL req [] e_disclose_me [] [])] /\
+    same_calls d (call_d0 d r next) /\ d_timers (call_d0 d r next) = d_timers d.
+Proof. exact call_disclose_refused_proof. Qed.
+Print Assumptions C12_call_disclose_refused.
+
+Theorem C12_call_disclose_never_invoked : forall cfg lookup now d caller req opts proc args kw oracle d' callee' o r,
+    call cfg lookup now d caller req opts proc args kw oracle = CallInvoked d' callee' o ->
+    cget (d_bycall d) (s_id caller, req) = None ->
+    match_procedure d proc oracle = Some r ->
+    opt_bool opts "disclose_me" = true -> reg_disclose r = false -> c_disclose cfg = true.
+Proof. exact call_disclose_never_invoked_proof. Qed.
+Print Assumptions C12_call_disclose_never_invoked.
